@@ -167,3 +167,40 @@ def replay_truncate(r):
     want = sorted(zip(exp_p.tolist(), exp_c.tolist()))
     bad = len(got) != len(want) or not np.allclose(np.array(got), np.array(want), rtol=1e-6, atol=1e-9)
     return {"violation": bool(bad), "detail": "kept (weight, cost) %s expected %s" % (got, want)}
+
+
+def replay_chunks(r):
+    """compiled run of the real per-row kernels: the same rows in one call with a small chunk_size vs one call per row"""
+    import numba
+    from pynndescent.distances import cosine
+    import vectorizers.linear_optimal_transport as lot
+    p, inp = r["params"], r["inputs"]
+    rng = np.random.RandomState(1)
+    # the counterexample's rows, embedded in a problem with enough structure for the result to be non-degenerate
+    rows = [np.array(x, dtype=np.float64) for x in inp["rows"]]
+    vec = rng.normal(size=(2, 3)); ref = rng.normal(size=(2, 3)); rd = np.array([0.5, 0.5])
+    sph = bool(p["spherical"])
+    if sph:
+        vec /= np.linalg.norm(vec, axis=1, keepdims=True); ref /= np.linalg.norm(ref, axis=1, keepdims=True)
+    metric = cosine
+
+    def run(rs, cs):
+        if p["variant"] == "sparse":
+            indptr = np.arange(0, 2 * len(rs) + 1, 2, dtype=np.int32)
+            idx = np.array([0, 1] * len(rs), dtype=np.int32)
+            dat = np.concatenate(rs)
+            return lot.lot_vectors_sparse_internal(indptr, idx, dat, vec, ref, rd, metric=metric, max_distribution_size=256, chunk_size=cs, spherical_vectors=sph)
+        sv = numba.typed.List(); sd = numba.typed.List()
+        for x in rs:
+            sv.append(vec.copy()); sd.append(x.copy())
+        return lot.lot_vectors_dense_internal(sv, sd, ref, rd, metric=metric, max_distribution_size=256, chunk_size=cs, spherical_vectors=sph)
+    try:
+        B = run(rows, int(p["chunk_size"]))
+        bad = []
+        for i, x in enumerate(rows):
+            S = run([x], 256)
+            if not np.allclose(B[i], S[0], rtol=1e-7, atol=1e-9):
+                bad.append("row %d: %s in the batch, %s alone" % (i, B[i].tolist(), S[0].tolist()))
+    except Exception as e:
+        return {"violation": True, "detail": "%s: %s" % (type(e).__name__, e)}
+    return {"violation": bool(bad), "detail": "; ".join(bad)[:600]}
